@@ -82,6 +82,22 @@ func (r *Decoder) getFieldIndices() {
 	}
 }
 
+// attributeNameLength is the number of bytes of an attribute name that a
+// shapefile (its DBF table) stores; the Encoder cuts longer names to it.
+const attributeNameLength = 11
+
+// attributeName returns the form in which name is looked up among the
+// attributes of a shapefile: lower case, and cut to the length the file can
+// hold, so that a struct field or requested name that was shortened when the
+// file was written still finds its column.
+func attributeName(name string) string {
+	name = strings.ToLower(name)
+	if len(name) > attributeNameLength {
+		name = name[:attributeNameLength]
+	}
+	return name
+}
+
 // DecodeRow decodes a shapefile row into a struct. The input
 // value rec must be a pointer to a struct. The function will
 // attempt to match the struct fields to shapefile data.
@@ -108,8 +124,8 @@ func (r *Decoder) DecodeRow(rec interface{}) bool {
 	for i := 0; i < v.NumField(); i++ {
 		fType := t.Field(i)
 		fValue := v.Field(i)
-		fName := strings.ToLower(fType.Name)
-		tagName := strings.ToLower(fType.Tag.Get(tag))
+		fName := attributeName(fType.Name)
+		tagName := attributeName(fType.Tag.Get(tag))
 
 		// First, check if this is a geometry field
 		if fType.Type.Implements(gI) {
@@ -169,7 +185,7 @@ func (r *Decoder) DecodeRowFields(fieldNames ...string) (
 
 	// Get fields
 	for _, name := range fieldNames {
-		if i, ok := r.fieldIndices[strings.ToLower(name)]; ok {
+		if i, ok := r.fieldIndices[attributeName(name)]; ok {
 			f := r.ReadAttribute(r.row, i)
 			if r.err != nil {
 				return
